@@ -30,22 +30,22 @@
 (*                 stays pending and completes inside a later Feed         *)
 (*                                                                         *)
 (* Receive buffers have an IDENTITY (strengthening after seed C16-f).  A   *)
-(* queued message is a slice of the buffer recvLoop read it into: the queue *)
-(* holds [n, err, slot, ovw] - `slot` names the buffer, `ovw` tells whether *)
+(* queued message is a slice of the buffer recvLoop read it into: the queue*)
+(* holds [n, err, slot, ovw] - `slot` names the buffer, `ovw` tells whether*)
 (* that buffer has been written again since (the bytes the reader will get *)
-(* are then those of the later item).  recvCh has capacity Cap; a message   *)
-(* that does not fit is HELD by recvLoop (blocked in its send), which then  *)
-(* reads nothing more from the stream until a reader makes room: the SLOW   *)
-(* READER.  BufMode selects how recvLoop obtains the buffer for its next    *)
+(* are then those of the later item).  recvCh has capacity Cap; a message  *)
+(* that does not fit is HELD by recvLoop (blocked in its send), which then *)
+(* reads nothing more from the stream until a reader makes room: the SLOW  *)
+(* READER.  BufMode selects how recvLoop obtains the buffer for its next   *)
 (* stream.Read:                                                            *)
-(*   "fresh"  a new buffer for every receive (slot = index of the receive)  *)
-(*   "ring"   a ring of RingSize recycled buffers whose index advances with *)
-(*            every forwarded message (heartbeats reuse the slot).  Sound   *)
-(*            only if RingSize > Cap + 1 (queue + the held message + the    *)
-(*            one being copied out); "ring" with RingSize <= Cap is the     *)
-(*            deliberately broken instance: it violates                     *)
-(*            ReceiveBufferUnreferenced, StreamFidelity and                 *)
-(*            HeartbeatsNeverSurface once Cap messages wait unread.         *)
+(*   "fresh"  a new buffer for every receive (slot = index of the receive) *)
+(*   "ring"   a ring of RingSize recycled buffers whose index advances with*)
+(*            every forwarded message (heartbeats reuse the slot).  Sound  *)
+(*            only if RingSize > Cap + 1 (queue + the held message + the   *)
+(*            one being copied out); "ring" with RingSize <= Cap is the    *)
+(*            deliberately broken instance: it violates                    *)
+(*            ReceiveBufferUnreferenced, StreamFidelity and                *)
+(*            HeartbeatsNeverSurface once Cap messages wait unread.        *)
 (*                                                                         *)
 (* Mode = "intended": what the property demands - data queued before a     *)
 (*   stream error, and data that arrives together with it, is delivered    *)
